@@ -126,6 +126,33 @@ namespace {
       Early() { impl::Lexicon lex; record(rows, lex); }
    };
    const Early early;
+
+   // The other end of the process: an object with static storage duration that owns a Lexicon (a session object of a client) and, in
+   // its DESTRUCTOR -- after main() has returned, while the objects constructed after it are already gone -- takes the routes once
+   // more: the constants are process-wide for the whole life of the process.  Reported on stdout (`shutdown-audit ...`).
+   struct Late {
+      std::unique_ptr<impl::Lexicon> keeper = std::make_unique<impl::Lexicon>();
+      ~Late()
+      {
+         impl::Lexicon& lex = *keeper;
+         int checked = 0, failed = 0;
+         std::string first;
+         auto check = [&](bool ok, const char* what) { ++checked; if (not ok) { if (failed++ == 0) first = what; } };
+         try {
+#define A(acc) { const Type& t = lex.acc(); if (auto id = dynamic_cast<const ipr::Identifier*>(&t.name())) \
+                    check(&lex.get_as_type(lex.get_identifier(id->string().characters())) == &t, #acc); }
+            TYPE_ACCESSORS(A)
+#undef A
+            check(&lex.get_label(lex.get_identifier(u8"default")) == &lex.default_value(), "default_value");
+            check(&lex.get_linkage(u8"C") == &lex.c_linkage() and &lex.get_linkage(u8"C++") == &lex.cxx_linkage(), "linkages");
+            check(&lex.get_identifier(u8"int") == &lex.int_type().name(), "identifier int");
+         }
+         catch (...) { check(false, "a route raised"); }
+         std::printf("shutdown-audit checked=%d failed=%d first=%s\n", checked, failed, first.empty() ? "-" : first.c_str());
+         std::fflush(stdout);
+      }
+   };
+   Late late;
 }
 
 int main()
@@ -241,21 +268,44 @@ int main()
             auto& a = lex.get_as_type(lex.get_identifier(token));
             auto& b = lex.get_as_type(lex.get_identifier(lex.get_string(token)));
             std::printf("R %d as_type %s word=%s string=%s\n", i, h.c_str(), at(a).c_str(), at(b).c_str());
+            // the same request made through a reference to the factory the Lexicon is built from (a helper that takes the factory)
+            ipr::impl::type_factory& tf = lex;
+            if (&tf.get_as_type(lex.get_identifier(token)) != &a) std::printf("assert-failed route-as_type-through-the-type-factory %d %s\n", i, h.c_str());
          }
          else if (kind == "ident") {
             auto& a = lex.get_identifier(token);
             auto& b = lex.get_identifier(lex.get_string(token));
             std::printf("R %d ident %s word=%s string=%s\n", i, h.c_str(), at(a).c_str(), at(b).c_str());
+            ipr::impl::name_factory& nf = lex;
+            if (&nf.get_identifier(token) != &a or &nf.get_identifier(lex.get_string(token)) != &a)
+               std::printf("assert-failed route-identifier-through-the-name-factory %d %s\n", i, h.c_str());
          }
          else if (kind == "linkage") {
             auto& a = lex.get_linkage(token);
             auto& b = lex.get_linkage(lex.get_string(token));
             std::printf("R %d linkage %s word=%s string=%s\n", i, h.c_str(), at(&a).c_str(), at(&b).c_str());
+            ipr::impl::expr_factory& ef = lex;
+            if (&ef.get_linkage(token) != &a) std::printf("assert-failed route-linkage-through-the-expression-factory %d %s\n", i, h.c_str());
+            // round trip: the linkage spelled by what the answer itself says its language is -- its own logogram's String, handed back
+            // to this Lexicon and to another one (for the two standard linkages: the constant again, everywhere)
+            if (&lex.get_linkage(a.language().what()) != &a) std::printf("assert-failed route-linkage-round-trip-through-its-own-String %d %s\n", i, h.c_str());
+            if (&a.language() != &lex.get_logogram(lex.get_string(token))) std::printf("assert-failed route-linkage-logogram-is-the-one-of-its-spelling %d %s\n", i, h.c_str());
+            if (&a == &lex.c_linkage() or &a == &lex.cxx_linkage()) {
+               static ipr::impl::Lexicon other;
+               if (&other.get_linkage(a.language().what()) != &a or not (other.get_linkage(a.language().what()) == a))
+                  std::printf("assert-failed route-linkage-round-trip-through-another-Lexicon %d %s\n", i, h.c_str());
+            }
          }
          else if (kind == "label") {
             auto& a = lex.get_label(lex.get_identifier(token));
             auto& b = lex.get_label(lex.get_identifier(lex.get_string(token)));
             std::printf("R %d label %s word=%s string=%s\n", i, h.c_str(), at(a).c_str(), at(b).c_str());
+            ipr::impl::expr_factory& ef = lex;
+            if (&ef.get_label(lex.get_identifier(token)) != &a) std::printf("assert-failed route-label-through-the-expression-factory %d %s\n", i, h.c_str());
+            if constexpr (requires (ipr::impl::stmt_factory& sf) { sf.get_label(lex.get_identifier(token)); }) {
+               ipr::impl::stmt_factory& sf = lex;
+               if (&sf.get_label(lex.get_identifier(token)) != &a) std::printf("assert-failed route-label-through-the-statement-factory %d %s\n", i, h.c_str());
+            }
          }
          else if (kind == "decltype_nullptr") {
             const ipr::Expr& as_expr = lex.nullptr_value();                    // the constant seen as a plain expression
